@@ -557,6 +557,8 @@ STACKS = {
   'udp6_hop':   lambda b: [b.eth(0x86dd), b.ipv6(17, ('hop',)), b.udp()],
   'udp6_dest14': lambda b: [b.eth(0x86dd), b.ipv6(17, ('dest:14',)), b.udp()],
   'tcp6_frag':  lambda b: [b.eth(0x86dd), b.ipv6(6, ('frag',)), b.tcp()],
+  'udp6_hop_dest': lambda b: [b.eth(0x86dd), b.ipv6(17, ('hop', 'dest')), b.udp()],
+  'tcp6_route_frag_dest': lambda b: [b.eth(0x86dd), b.ipv6(6, ('route', 'frag', 'dest:14')), b.tcp(('mss',))],
   'echo6_hop_route': lambda b: [b.eth(0x86dd), b.ipv6(58, ('hop', 'route')), b.icmpv6(128), b.echo6()],
   'igmp_query': lambda b: [b.eth(0x800), b.ipv4(2), b.igmp(0x11)],
   'igmp_report2': lambda b: [b.eth(0x800), b.ipv4(2, opt=4), b.igmp(0x16)],
